@@ -428,12 +428,17 @@ class ExprFormatted(Expr):
     """Formatted value."""
     conversion: str | None = None
     """Conversion applied to the value (`r`, `s` or `a`), if any."""
+    format_spec: Expr | None = None
+    """Format specification (a joined string: text and nested formatted values), if any."""
 
     def iterate(self, *, flat: bool = True) -> Iterator[str | Expr]:
         yield "{"
         yield from _yield(self.value, flat=flat)
         if self.conversion:
             yield f"!{self.conversion}"
+        if self.format_spec is not None:
+            yield ":"
+            yield from _join(self.format_spec.values, "", flat=flat)  # type: ignore[attr-defined]
         yield "}"
 
 
@@ -1056,6 +1061,7 @@ def _build_formatted(
     return ExprFormatted(
         _build(node.value, parent, in_formatted_str=True, **kwargs),
         conversion=chr(node.conversion) if node.conversion != -1 else None,
+        format_spec=None if node.format_spec is None else _build(node.format_spec, parent, **kwargs),
     )
 
 
